@@ -1064,7 +1064,9 @@ def gen_fail(rng, m, prof):
             item = (a + "+") if r[0] == "O" else a
             if rng.chance(0.3):
                 item += " " + (rng.choice(SEGS + EDGE_IDS) + ("+" if r[0] == "O" else ""))
-            return ["add", "\t".join([r[0], r[1], item, "xx:i:%d" % (int(tg[0][5:]) + 1)])], "fail:grouptag"
+            # a different value for the same tag (an integer one more, a string one letter longer)
+            other = ("xx:i:%d" % (int(tg[0][5:]) + 1)) if re.match(r"xx:i:-?[0-9]+\Z", tg[0]) else (tg[0] + "x")
+            return ["add", "\t".join([r[0], r[1], item, other])], "fail:grouptag"
         if k == "rename-existing":
             named = sorted(ids)
             if len(named) < 2:
